@@ -493,6 +493,8 @@ class Policy(object):
             return 0.0
         if fbase == 'nc_d-400_consumer_use_tax_wkst':
             if base == 'out_of_state_purchases':
+                if p.get('small_purchases'):
+                    return self.amount(0, 400)      # so that the sales tax paid elsewhere can exceed the N.C. use tax due
                 return self.amount(0, 5000)
             if base == 'county_tax_pct':
                 return d(st.sampled_from([0.07, 0.0725, 0.075, 0.0675]))
